@@ -5,7 +5,9 @@ import vf, routerfam
 def run(ctx):
     drv = vf.build_driver("routerdrv")
     ctx.exhaustive("Router_MC", "Router_MC_time", timeout=1800)
-    args = ["-thorough"] if not ctx.quick else []
+    # the buffer pool's ownership instrumentation serialises the requests on its registry lock: off for this run,
+    # the simultaneous hits have to be simultaneous
+    args = ["-bypass"] + (["-thorough"] if not ctx.quick else [])
     trace, _ = routerfam.run_mode(ctx, drv, "c19", args)
     routerfam.validate(ctx, trace, only=["Inv_C19_", "Inv_C08_NoDisplace", "Unconsumable"], require_events=300)
     ctx.assumptions += [
